@@ -42,6 +42,10 @@ func vhExpiring(f map[string]interface{}, enc int, t0 int64) (bool, int64) {
 		return true, e
 	case 4:
 		return false, 0
+	case 5: // ttl as a very large number of seconds (centuries)
+		ttl := vsymInt64("bigttl", 9000000000, 20000000000)
+		f["ttl"] = float64(ttl)
+		return true, t0 + ttl
 	}
 	vassume(false)
 	return false, 0
@@ -58,7 +62,7 @@ func VH_C07_fact(kind, enc, reload, obs int) {
 // the prepared fact": a relative ttl (both states) or an RFC3339 expires (linear state,
 // whose Load does not prepare facts) followed by a reload.
 func vhStoredFormatCase(kind, enc, reload int) bool {
-	return reload == 1 && (enc == 1 || enc == 2 || (kind == 1 && enc == 3))
+	return reload == 1 && (enc == 1 || enc == 2 || enc == 5 || (kind == 1 && enc == 3))
 }
 
 // VH_C07_witness_ttl_reload: such an item, reloaded, then observed (open finding).
